@@ -41,7 +41,7 @@ HERE = os.path.dirname(os.path.abspath(__file__))
 TIERS = {
     'quick': {'runs': None, 'draws': 6, 'chains': 1500, 'block': 150,
               'run_timeout': 120, 'wall_cap': 900, 'det_sample': 4},
-    'thorough': {'runs': None, 'draws': 48, 'chains': 40000, 'block': 1000,
+    'thorough': {'runs': None, 'draws': 30, 'chains': 20000, 'block': 1000,
                  'run_timeout': 120, 'wall_cap': 7200, 'det_sample': 8},
 }
 RULE = ('the rejection lattice state x row groups x mode x kind x column '
